@@ -40,6 +40,11 @@ def run(chk, tier, overlays=()):
     clones(chk, P)
     ties(chk, P)
     deadcond(chk, P)
+    # "reports and events are delivered in time order": a pending report must never lie strictly inside a reported event window,
+    # otherwise the handler at tHigh runs before the report due earlier -- the WINDOW rule is shared with C19 (same function, same clause)
+    from .c19 import window as _window
+    _window(chk, P)
+    chk.floor("WINDOW", 6)
     chk.floor("SWITCH", 20)
     chk.floor("CLONE", 4)
     chk.floor("PAIRIDX", 14)
